@@ -31,6 +31,12 @@
 (* the dynamics captured at Build (= lon as designed; the named deviation  *)
 (* CaptureAtJoinEpoch shifts it by the elapsed time, refuted by SiteFixed). *)
 (*                                                                         *)
+(* The site's configuration OBJECT is a participant: it may already have   *)
+(* been converted at another epoch (an earlier scenario built from the same *)
+(* validated objects); `first` remembers that.  Every conversion must be a  *)
+(* function of (site, epoch) only (ConvertIgnoresHistory); the named        *)
+(* deviation CacheIgnoresEpoch (a memo on the object) is refuted by         *)
+(* SiteFixed, also at the join instant before the first propagation.        *)
 (* Properties: SiteEpochAgrees, StartInversionExact, SiteFixed,            *)
 (* VelIsRotation.                                                          *)
 (***************************************************************************)
@@ -42,11 +48,15 @@ CONSTANTS N,                          \* ticks per revolution
           Plans,                      \* step plans: sequences of step sizes (s); <<>> = "MaxSteps
                                       \* steps of the configured physics step dt"
           MaxJoinSteps,               \* the site may join after 0..MaxJoinSteps scenario steps
+          PriorAngles,                \* Earth angles at which the site's configuration OBJECT may
+                                      \* already have been converted (by an earlier scenario)
           InvertStartBySecTruncation, \* FALSE = as designed
-          CaptureAtJoinEpoch          \* FALSE = as designed
+          CaptureAtJoinEpoch,         \* FALSE = as designed
+          CacheIgnoresEpoch           \* FALSE = as designed
 
-VARIABLES pc, lon, theta0, startSec, dt, plan, invErr, clockSec, k, siteEpoch, inertial, vel, join, siteLon
-vars == <<pc, lon, theta0, startSec, dt, plan, invErr, clockSec, k, siteEpoch, inertial, vel, join, siteLon>>
+VARIABLES pc, lon, theta0, startSec, dt, plan, invErr, clockSec, k, siteEpoch, inertial, vel, join, siteLon,
+          first       \* the configuration object: Earth angle of its first conversion, -1 = never converted
+vars == <<pc, lon, theta0, startSec, dt, plan, invErr, clockSec, k, siteEpoch, inertial, vel, join, siteLon, first>>
 
 Theta(t)      == (theta0 + t) % N                \* Earth angle at scenario second t
 \* ecef2eci(x_ecef, start + e), position angle; x_ecef is what the dynamics captured (siteLon)
@@ -55,24 +65,32 @@ Quarter       == N \div 4
 \* what the agent reports as its Earth-fixed longitude: eci2ecef(eci, clock epoch)
 ReportedLon   == (inertial - Theta(clockSec)) % N
 ReportedVelLon == (vel - Theta(clockSec)) % N
+\* LLAStateConfig.toECI(epoch) on the configuration OBJECT whose first conversion was at Earth
+\* angle f (-1: none): the inertial angle of the site.  As DESIGNED a function of the site and the
+\* epoch only; the named deviation CacheIgnoresEpoch = TRUE hands back the first conversion's
+\* result (a memo on the object that ignores the epoch).
+Convert(f, angle) == IF CacheIgnoresEpoch /\ f # -1 THEN (lon + f) % N ELSE (lon + angle) % N
 InvErrs == IF InvertStartBySecTruncation /\ startSec # 0 THEN {0, -1} ELSE {0}
 
 Init == /\ pc = "start" /\ lon = 0 /\ theta0 = 0 /\ startSec = 0 /\ dt = 0 /\ plan = <<>> /\ invErr = 0
         /\ clockSec = 0 /\ k = 0 /\ siteEpoch = 0 /\ inertial = 0 /\ vel = Quarter
-        /\ join = 0 /\ siteLon = 0
+        /\ join = 0 /\ siteLon = 0 /\ first = -1
 
+\* (the configuration object is fresh, or an earlier scenario with another start instant was
+\*  built from it: its state was converted at that scenario's start angle)
 PoseSite  == /\ pc = "start" /\ \E g \in Lons, t \in Theta0s : lon' = g /\ theta0' = t
+             /\ \E f \in PriorAngles \cup {-1} : first' = f
              /\ pc' = "site"
              /\ UNCHANGED <<startSec, dt, plan, invErr, clockSec, k, siteEpoch, inertial, vel, join, siteLon>>
 PoseStart == /\ pc = "site"
              /\ \E s \in StartSecs, st \in Dts, p \in Plans : startSec' = s /\ dt' = st /\ plan' = p
              /\ pc' = "posed"
-             /\ UNCHANGED <<lon, theta0, invErr, clockSec, k, siteEpoch, inertial, vel, join, siteLon>>
+             /\ UNCHANGED <<lon, theta0, invErr, clockSec, k, siteEpoch, inertial, vel, join, siteLon, first>>
 \* the scenario steps before the site exists (a sensor added mid-run: Scenario.addSensor or a
 \* sensor-addition event): only the clock advances
 Wait == /\ pc = "posed" /\ join < MaxJoinSteps /\ dt > 0
         /\ clockSec' = clockSec + dt /\ join' = join + 1
-        /\ UNCHANGED <<pc, lon, theta0, startSec, dt, plan, invErr, k, siteEpoch, inertial, vel, siteLon>>
+        /\ UNCHANGED <<pc, lon, theta0, startSec, dt, plan, invErr, k, siteEpoch, inertial, vel, siteLon, first>>
 \* ScenarioBuilder / Scenario.addSensor at scenario second clockSec (0 unless the site joins late):
 \*  - dynamicsFactory: the dynamics recovers the start datetime from the start Julian date and
 \*    captures the site's Earth-fixed position, as DESIGNED from the configuration at the start
@@ -81,12 +99,16 @@ Wait == /\ pc = "posed" /\ join < MaxJoinSteps /\ dt > 0
 \*    the START epoch, which pins the site clockSec ticks further east (spec mutant: TLC must
 \*    refute SiteFixed for a site that joins late);
 \*  - SensingAgent.fromConfig: the initial inertial state is the configuration evaluated at the
-\*    clock's current epoch
+\*    clock's current epoch.
+\* Both evaluate the SAME configuration object (Convert), the factory first, at the start epoch.
 Build == /\ pc = "posed" /\ \E e \in InvErrs : invErr' = e
-         /\ siteLon' = IF CaptureAtJoinEpoch THEN (lon + clockSec) % N ELSE lon
+         /\ LET f1    == IF first = -1 THEN theta0 ELSE first          \* after the factory's conversion
+                atCap == IF CaptureAtJoinEpoch THEN Convert(first, Theta(clockSec)) ELSE Convert(first, theta0)
+            IN /\ siteLon' = (atCap - theta0) % N                     \* eci2ecef(..., start epoch)
+               /\ inertial' = Convert(f1, Theta(clockSec))
+               /\ vel' = (Convert(f1, Theta(clockSec)) + Quarter) % N
+               /\ first' = f1
          /\ siteEpoch' = clockSec
-         /\ inertial' = (lon + theta0 + clockSec) % N
-         /\ vel' = (lon + theta0 + clockSec + Quarter) % N
          /\ pc' = "run"
          /\ UNCHANGED <<lon, theta0, startSec, dt, plan, clockSec, k, join>>
 \* one propagation of d seconds: the clock advances; Terrestrial.propagate evaluates the
@@ -96,7 +118,7 @@ Advance(d) == /\ d > 0
               /\ siteEpoch' = invErr + clockSec + d
               /\ inertial' = Inertial(invErr + clockSec + d)
               /\ vel' = (Inertial(invErr + clockSec + d) + Quarter) % N
-              /\ UNCHANGED <<pc, lon, theta0, startSec, dt, plan, invErr, join, siteLon>>
+              /\ UNCHANGED <<pc, lon, theta0, startSec, dt, plan, invErr, join, siteLon, first>>
 \* a scenario: every step is the configured physics step
 Step     == pc = "run" /\ plan = <<>> /\ k < MaxSteps /\ Advance(dt)
 \* the agent stepped directly with a plan of step sizes: a long first step (an elapsed time of
@@ -109,7 +131,11 @@ Spec == Init /\ [][Next]_vars
 \* C11: the epoch of the site's inertial state is the clock
 SiteEpochAgrees     == pc = "run" => siteEpoch = clockSec
 StartInversionExact == pc = "run" => invErr = 0
-\* C11: the reported Earth-fixed position is the configured one, at every step
+\* C11: every conversion of the configuration is a function of the site and the epoch only,
+\* whatever the object was converted for before
+ConvertIgnoresHistory == \A a \in {theta0, Theta(clockSec)} : Convert(first, a) = (lon + a) % N
+\* C11: the reported Earth-fixed position is the configured one, at every step - including the
+\* state reported at the instant the agent is created / joins (k = 0), before any propagation
 SiteFixed           == pc = "run" => ReportedLon = lon
 \* C11: the inertial velocity is the Earth-rotation velocity at that point
 VelIsRotation       == pc = "run" => ReportedVelLon = (lon + Quarter) % N
@@ -117,7 +143,8 @@ VelIsRotation       == pc = "run" => ReportedVelLon = (lon + Quarter) % N
 \* configurations handed to the driver (which crosses them with real dates and sites)
 Emit == (pc = "run" /\ ((plan = <<>> /\ k = MaxSteps) \/ (plan # <<>> /\ k = Len(plan)))) =>
    PrintT("SITE " \o ToJson([startSec |-> startSec, dt |-> dt, steps |-> k, lon |-> lon, theta0 |-> theta0,
-                             plan |-> plan, elapsed |-> clockSec, join |-> join]))
+                             plan |-> plan, elapsed |-> clockSec, join |-> join,
+                             reused |-> IF first = theta0 THEN 0 ELSE 1]))
 
 Secs60      == 0..59
 DtsQuick    == {2, 7, 30, 60, 120, 300, 600, 900}
@@ -135,4 +162,6 @@ PlansQuick    == LatePlans({10800, 216000, 1036800}, {2, 10}) \cup DayPlans \cup
 PlansThorough == LatePlans({10800, 86400, 216000, 432000, 1036800}, {2, 3, 5, 10}) \cup DayPlans \cup MixedPlans
 LonsAll     == {0, 1, 21600, 43200, 64800, 86399}
 ThetasAll   == {0, 12345, 86399}
+OnePrior    == {22663}            \* 6 h 17 min 43 s of Earth rotation away from angle 0
+NoPrior     == {}
 =============================================================================
